@@ -175,10 +175,11 @@ def o_c02(recs):
             continue
         b, a = r.before, r.after
         newc = [k for k in r.new_objs if a.objects[k] and a.objects[k].startswith(b"commit ")]
-        if len(newc) != 1:
-            bad.append((i, "successful commit created %d commit objects" % len(newc)))
+        cid = tip(a)
+        if len(newc) > 1 or cid is None or (newc and newc[0] != cid):
+            bad.append((i, "successful commit created %d commit objects; the branch names %s" % (len(newc), cid and cid.hex())))
             continue
-        cid = newc[0]
+        # (an identical commit made again within the same second is the same object: nothing new to store)
         c = a.commit(cid)
         snap = a.flatten(c["tree"])
         want = b.index_entries()
@@ -287,7 +288,8 @@ def o_c04(recs):
                 elif not unchanged(b, a):
                     bad.append((i, "refused add changed %s" % what_changed(b, a)))
                 continue
-            if r.res.cls != "ok":
+            missing_twice = any(args.count(x) > 1 and x not in b.files and x not in b.dirs for x in args)
+            if r.res.cls != "ok" and not missing_twice:
                 bad.append((i, "valid add failed: %r" % r.res.err[-120:]))
                 continue
             got = staged(a)
